@@ -4,7 +4,7 @@
    writes, extract_atomic_value reads back (C01_atomic_roundtrip), and for each
    base type the raw value determines the internal value (C01_*_values).
    PROVED AT MESSAGE LEVEL (C01_flat_message_roundtrip): for every message which is a
-   sequence of VALUE parameters with implicit positions over STANDARD-LENGTH types
+   sequence of CODED-CONST / VALUE parameters with implicit positions over STANDARD-LENGTH types
    (any base type / encoding / byte order / bit length, no bit mask, IDENTICAL compu
    method), any number of parameters: Request.encode succeeds without overlap warning
    and Request.decode of the result returns exactly the encoded values -- stated about
@@ -62,34 +62,42 @@ Theorem C01_nonvacuous :
   = Ok ([224; 85], 2).
 Proof. exact emplace_example. Qed.
 
-(* message level: any number of sequential standard-length VALUE parameters *)
+(* message level: any number of sequential standard-length CODED-CONST / VALUE parameters; the
+   caller passes the VALUE parameters, the decoder returns all parameters *)
 Theorem C01_flat_message_roundtrip : forall fl vv,
   (forall x, In x fl -> fits x (vv (fname x))) -> NoDup (map fname fl) ->
   exists msg,
-    encode_msg (map mkp fl) None (VDict (fvals vv fl)) = Ok (msg, false) /\
+    encode_msg (map mkp fl) None (VDict (fvals vv (filter is_value fl))) = Ok (msg, false) /\
     decode_msg (map mkp fl) msg = Ok (VDict (fvals vv fl)) /\
     blen msg = fold_right (fun x a => fbytes x + a) 0 fl.
 Proof. exact flat_roundtrip. Qed.
 Print Assumptions C01_flat_message_roundtrip.
 
-(* the hypothesis is satisfiable: unsigned integers in range, signed integers raw_of accepts *)
+(* the hypothesis is satisfiable: unsigned integers in range, signed integers raw_of accepts,
+   unsigned constants *)
 Theorem C01_fits_uint : forall nm bl hl z,
-  0 < bl <= 64 -> 0 <= z < 2 ^ bl -> fits (mkF nm bl BUint None hl BUint) (VInt z).
+  0 < bl <= 64 -> 0 <= z < 2 ^ bl -> fits (mkF nm bl BUint None hl BUint None) (VInt z).
 Proof. exact fits_uint. Qed.
 Print Assumptions C01_fits_uint.
 
 Theorem C01_fits_int : forall nm bl en hl z raw,
   0 < bl <= 64 -> (en = None \/ en = Some Enc2C \/ en = Some Enc1C \/ en = Some EncSM) ->
-  raw_of (VInt z) bl BInt en hl = Ok raw -> fits (mkF nm bl BInt en hl BInt) (VInt z).
+  raw_of (VInt z) bl BInt en hl = Ok raw -> fits (mkF nm bl BInt en hl BInt None) (VInt z).
 Proof. exact fits_int. Qed.
 Print Assumptions C01_fits_int.
 
+Theorem C01_fits_const_uint : forall nm bl hl z,
+  0 < bl <= 64 -> 0 <= z < 2 ^ bl -> fits (mkF nm bl BUint None hl BUint (Some (VInt z))) (VInt z).
+Proof. exact fits_const_uint. Qed.
+Print Assumptions C01_fits_const_uint.
+
 Theorem C01_flat_example :
-  let fl := [mkF [112; 49] 8 BUint None true BUint; mkF [112; 50] 12 BUint None false BUint;
-             mkF [112; 51] 64 BUint None true BUint; mkF [112; 52] 8 BInt (Some Enc2C) true BInt] in
-  let vv := fun nm => if bytes_eqb nm [112; 49] then VInt 34 else if bytes_eqb nm [112; 50] then VInt 2748
+  let fl := [mkF [115] 8 BUint None true BUint (Some (VInt 34));
+             mkF [112; 50] 12 BUint None false BUint None;
+             mkF [112; 51] 64 BUint None true BUint None; mkF [112; 52] 8 BInt (Some Enc2C) true BInt None] in
+  let vv := fun nm => if bytes_eqb nm [115] then VInt 34 else if bytes_eqb nm [112; 50] then VInt 2748
                       else if bytes_eqb nm [112; 51] then VInt (2 ^ 64 - 1) else VInt (-2) in
-  encode_msg (map mkp fl) None (VDict (fvals vv fl)) =
+  encode_msg (map mkp fl) None (VDict (fvals vv (filter is_value fl))) =
     Ok ([34; 188; 10; 255; 255; 255; 255; 255; 255; 255; 255; 254], false) /\
   decode_msg (map mkp fl) [34; 188; 10; 255; 255; 255; 255; 255; 255; 255; 255; 254] = Ok (VDict (fvals vv fl)) /\
   static_bits_msg (map mkp fl) = Some 96.
